@@ -141,7 +141,7 @@ def run(ctx, res):
                       n_grains=n, fractions_init=f0.copy(), orientations_init=A0.copy())
         L = impl.make_L(impl.L_KINDS[h % len(impl.L_KINDS)], rng)
         params = impl.two_phase_params(gbs_threshold=chi, gbm_mobility=float(rng.choice([50, 125, 200])),
-                                       number_of_grains=n)
+                                       number_of_grains=(n if h % 2 == 0 else 3500))  # the mineral's own n_grains is what counts
         F = np.eye(3)
         n_upd = int(rng.integers(1, 4))
         ts = np.linspace(0, rng.uniform(0.3, 1.0), n_upd + 1)
